@@ -132,10 +132,11 @@ func TraverseStringsFunc[T any](v T, fn func(v string) (string, error)) (T, erro
 		case reflect.Map:
 			// Create an empty copy from the original value's type
 			copy.Set(reflect.MakeMap(v.Type()))
-			// Loop over each key
-			for _, key := range v.MapKeys() {
+			// Loop over each entry (a key that is not equal to itself - NaN -
+			// cannot be looked up again, so the entries are not fetched by key)
+			for iter := v.MapRange(); iter.Next(); {
 				// Create a copy of each map index
-				originalValue := v.MapIndex(key)
+				key, originalValue := iter.Key(), iter.Value()
 				// Only values of these kinds can be nil (IsNil panics for
 				// the others, e.g. the strings of a map[string]string)
 				switch originalValue.Kind() {
